@@ -384,6 +384,8 @@ class Sim:
                 ctx.probe('knob:components_through_factories')
         if record.get('alias_objects'):
             ctx.probe('knob:object_identity_aliasing')
+        if record.get('door_status_assigned'):
+            ctx.probe('knob:door_status_assigned_after_construction')
         if record.get('grid_from_shape'):
             ctx.probe('knob:grid_built_with_from_shape')
         for m in monitors:
@@ -474,7 +476,13 @@ class Sim:
         cl.complog.clear()
         cl.rlog.clear()
         cl.tlog.clear()
-        r = sut(cl.env.step, action_of(aname))
+        if cl.spec.get('int_actions') and aname in cl.actions and self.op_index % 2 == 0:
+            # the action arrives as an index into the action list (what the gym layer does), every other step
+            idx = cl.actions.index(aname)
+            self.ctx.probe('action_given_as_index')
+            r = sut(lambda: cl.env.step(cl.env.action_space.int_to_action(idx)))
+        else:
+            r = sut(cl.env.step, action_of(aname))
         ev = {'kind': 'step', 'stateful': True, 's0': s0, 'w0': w0, 'action': aname, 'out': r,
               'complog': list(cl.complog), 'rlog': list(cl.rlog), 'tlog': list(cl.tlog),
               'valid0': getattr(cl, 'cur_valid', False)}
